@@ -270,7 +270,7 @@ def run_cpaging(ctx):
             if (w == "Witness_SilentClose" and close_fails) or (w == "Witness_TwoErrorsQueued" and not late_bp):
                 continue
             wcfg = tlc.write_cfg(os.path.join(S, "cp_wit.cfg"), constants=wc, invariants=[w], deadlock=False)
-            wres = tlc.check_model("ContinuousPaging", wcfg, S, timeout=600)
+            wres = tlc.check_model("ContinuousPaging", wcfg, S, timeout=2400)
             if wres.invariant != w:
                 raise tlc.MachineryError("vacuity: TLC does not reach %s" % w)
         ctx.note("tlc_witnesses_violated", len(WITNESS))
